@@ -21,8 +21,8 @@ def votes_proof(keyed):
 
 UNIT = Unit(
     name="stakeset", lemma_obs=['lemma_fsum_perm'],
-    prelude=["core.rs", "iter.rs", "imbl.rs"],
-    lemmas=["sums.rs", "stakes.rs"],
+    prelude=["core.rs", "raw.rs", "iter.rs", "imbl.rs"],
+    lemmas=["sums.rs", "stakes.rs", "stakeroot_def.rs"],
     items=[
         TypeItem(S, "struct", "StakeSet", subst=[("stakes:", "pub stakes:")]),
         Raw("impl View for StakeSet { type V = Map<TxHash, StakeDoc>; open spec fn view(&self) -> Map<TxHash, StakeDoc> { self.stakes@ } }"),
@@ -34,5 +34,15 @@ UNIT = Unit(
            rewrites=[("ANF", "sum", 0, 4, {2: VOTES_PROOF % "Some(key)"})], closures=VOTES_CLOSURES(True)),
         Fn(S, "total_votes", impl="StakeSet", home="C13", implicit_props=("C09", "C13", "C14"), **ss_total_votes(),
            rewrites=[("ANF", "sum", 0, 4, {2: VOTES_PROOF % "None"})], closures=VOTES_CLOSURES(False)),
+        Fn(S, "pre_tip911", impl="StakeSet", home="C07", implicit_props=("C09", "C07", "C13"), **ss_pre_tip911(),
+           uses="novasmt::axiom_tree_total",
+           rewrites=[("SUB", ".get_tree([0u8; 32])", ".get_tree(zero_root())"),
+                     ("SUB", "for (k, v) in self.stakes.iter() {", """let __es = self.stakes.iter(); let ghost m = self.stakes@; let ghost ks = Seq::new(__es@.len(), |i: int| *__es@[i].0);
+        proof { assert(tree@ =~= stakes_raw_upto(m, ks, 0)); }
+        for (k, v) in __es {""")],
+           injects=[Inject("before_tail", "proof { lemma_stakes_raw_all(m, ks); }")],
+           loops=[Loop(0, binder="it", body_entry="proof { let i = it.index@ as int; assert(it.seq()[i] == (k, v)); assert(*k == ks[i]); assert(ks.contains(ks[i])); assert(*v == m[ks[i]]); lemma_stakes_raw_step(m, ks, i); }",
+                       invariants=[C("enum", "is_enum(m, ks) && m == self.stakes@ && it.seq().len() == ks.len() && (forall|i: int| 0 <= i < ks.len() ==> *(#[trigger] it.seq()[i]).0 == ks[i] && *it.seq()[i].1 == m[ks[i]])", "C07"),
+                                   C("raw", "tree@ == stakes_raw_upto(m, ks, it.index@ as int)", "C07")])]),
     ],
 )
